@@ -141,6 +141,9 @@ template <class TM, class SM> struct Harness {
     { WS w1, w2; Eigen::VectorXd g1, g2; double c1 = opt.evaluate(x, g1, tc, rc, &w1), c2 = opt.evaluate(x, g2, tc, ZeroWaypointCost(), rc, &w2); ++c.st.comparisons;
       bool ok = c1 == c2 && g1.size() == g2.size(); for (int i = 0; ok && i < g1.size(); ++i) ok = g1(i) == g2(i);
       if (!ok) { fail("two-cost-overload", "evaluate(x,g,time,running) differs from the three-cost overload with a zero waypoint cost"); return; } }
+    // a second evaluation on the SAME workspace whose decision vector differs only in one boundary-derivative entry (same knots)
+    if (!L.blocks.empty()) { Eigen::VectorXd x2 = x, g2, g3; x2(L.deriv_off) += 0.5; WS ws2 = ws; /* a copy: `C` below still refers to ws.spline */ double c2 = eval(x2, g2, &ws2); WS wf; double c3 = eval(x2, g3, &wf); ++c.st.comparisons;
+      if (!bits_equal(c2, c3) || !bits_equal(g2.data(), g3.data(), g3.size())) { fail("same-knots-other-boundary-state", fmt("after changing only a boundary-derivative entry of x the same workspace returns %.17g, a fresh workspace %.17g", c2, c3)); return; } }
     // the same call on a workspace that last served a LARGER problem (and this one before that) returns the same cost and gradient (bitwise)
     { Opt big; if (cfg.tm == 2) big.setTimeMap(&utm); if (cfg.sm >= 1) big.setSpatialMap(&usm); big.setOptimizationFlags(flags_of(cfg.mask)); big.setEnergyWeights(cfg.rho); big.setIntegralNumSteps(cfg.K);
       Prob pb = opt_problem<D>(S, cfg.N + 2, 977, prob.t0);
